@@ -297,11 +297,15 @@ class MessageManager(interfaces.TokenInterface, interfaces.MessageManager):
 
         messageerror_monitor, next_retransmission = self._active_exchanges.pop(key)
         next_retransmission.cancel()
-        if message.mtype is RST:
-            messageerror_monitor()
-        self.log.debug("Exchange removed, message ID: %d.", message.mid)
+        try:
+            if message.mtype is RST:
+                messageerror_monitor()
+        finally:
+            # (even if an application's error callback raised: the exchange is
+            # over, and the messages held back behind it are due)
+            self.log.debug("Exchange removed, message ID: %d.", message.mid)
 
-        self._continue_backlog(message.remote)
+            self._continue_backlog(message.remote)
 
     def _continue_backlog(self, remote):
         """After an exchange has been removed, start working off the backlog or
